@@ -38,8 +38,37 @@ func r13a(c *an.Ctx) {
 			c.Subject()
 			call := ci.(*ssa.Call)
 			port := call.Call.Args[0]
-			minCall, ok := port.(*ssa.Call)
-			okMin := ok && isMin(an.CalleeName(&minCall.Call))
+			// the port is the lowest available port itself: the Min() call, possibly merged (phi) with constants on paths
+			// that give up, never the result of arithmetic on it
+			var minCall *ssa.Call
+			okMin := true
+			seenV := map[ssa.Value]bool{}
+			var walk func(v ssa.Value)
+			walk = func(v ssa.Value) {
+				if v == nil || seenV[v] {
+					return
+				}
+				seenV[v] = true
+				switch x := v.(type) {
+				case *ssa.Phi:
+					for _, e := range x.Edges {
+						walk(e)
+					}
+				case *ssa.Const:
+				case *ssa.ChangeType:
+					walk(x.X)
+				case *ssa.Call:
+					if isMin(an.CalleeName(&x.Call)) && (minCall == nil || minCall == x) {
+						minCall = x
+					} else {
+						okMin = false
+					}
+				default:
+					okMin = false
+				}
+			}
+			walk(port)
+			okMin = okMin && minCall != nil
 			// that very value is subtracted from the remaining offer
 			sub := false
 			if okMin {
@@ -292,28 +321,60 @@ func r13d(c *an.Ctx) {
 	c.Rule("R13d", "unmatched outbound target => non-nil error, propagated by BuildPropertyMap(s) and aborting configureTasks before Enqueue", 4)
 	if fn := c.MustFn("core/task/channel", "Outbound.ToFMQMap"); fn != nil {
 		c.Subject()
-		// err assigned fmt.Errorf in a block guarded by matched == false after the loop; and a return reachable from there returns it with no map
+		// "no entry matches": either the `matched` flag (a boolean set to true only inside the range over the bind map) is
+		// false, or a comma-ok lookup of the target in the bind map fails. From that edge every return must carry a
+		// non-nil error.
 		ok := false
-		an.Instrs(fn, func(in ssa.Instruction) {
-			call, isCall := in.(*ssa.Call)
-			if !isCall || an.CalleeName(&call.Call) != "fmt.Errorf" {
-				return
+		var starts []*ssa.BasicBlock
+		for _, b := range fn.Blocks {
+			v, trueIdx, isC := an.BoolCondEdge(b)
+			if !isC {
+				continue
 			}
-			if s, isS := an.ConstString(call.Call.Args[0]); !isS || !strings.Contains(s, "could not match") {
-				// do not depend on the message: accept any Errorf whose block is guarded by the `matched` phi being false
-				_ = s
-			}
-			for _, a := range an.Atoms(call.Block()) {
-				if p, isP := a.X.(*ssa.Phi); isP && a.Y == nil && !a.Val && p.Type().String() == "bool" {
-					// the phi is true only on the edge from the matching branch inside the loop
-					for _, ret := range an.Returns(fn) {
-						if sliceContains(an.RetVal(ret, 1), call) && an.CanReach(call, ret) {
-							ok = true
+			switch x := v.(type) {
+			case *ssa.Phi:
+				if x.Type().String() != "bool" || x.Comment == "&&" || x.Comment == "||" {
+					continue
+				}
+				inRange := false
+				for i, e := range x.Edges {
+					k, isK := e.(*ssa.Const)
+					if !isK || k.Value == nil || k.Value.String() != "true" {
+						continue
+					}
+					// set to true under the header of a range over the bind map
+					an.Instrs(fn, func(in ssa.Instruction) {
+						if nx, isNx := in.(*ssa.Next); isNx {
+							if rg, isRg := nx.Iter.(*ssa.Range); isRg && strings.HasSuffix(rg.X.Type().String(), "channel.BindMap") && nx.Block().Dominates(x.Block().Preds[i]) {
+								inRange = true
+							}
 						}
+					})
+				}
+				if inRange {
+					starts = append(starts, b.Succs[1-trueIdx])
+				}
+			case *ssa.Extract:
+				if lk, isLk := x.Tuple.(*ssa.Lookup); isLk && lk.CommaOk && x.Index == 1 && strings.HasSuffix(lk.X.Type().String(), "channel.BindMap") {
+					starts = append(starts, b.Succs[1-trueIdx])
+				}
+			}
+		}
+		if len(starts) > 0 {
+			ok = true
+			for _, st := range starts {
+				fl := an.FlowFrom(st, nil)
+				rets := fl.ReachedReturns()
+				if len(rets) == 0 {
+					ok = false
+				}
+				for _, ret := range rets {
+					if len(ret.Results) < 2 || fl.Nilness(an.RetVal(ret, 1)) != 1 {
+						ok = false
 					}
 				}
 			}
-		})
+		}
 		c.Ob("(*core/task/channel.Outbound).ToFMQMap|unmatched-is-error", fn.Pos(), ok, "when no entry of the bind map matches the target the function must return a non-nil error")
 	}
 	chain := []struct{ pkg, fn, callee string }{
@@ -347,22 +408,24 @@ func r13d(c *an.Ctx) {
 				avoid = append(avoid, e)
 			}
 			for _, t := range an.ErrTests(ev) {
-				// straight to a return: no further command, no next loop iteration
-				good := an.AllPathsReturnAvoiding(t.NonNilSucc, append(avoid, headerInstrs(call.Block())...))
-				hasRet := false
-				for _, ret := range an.Returns(fn) {
-					if ret.Block() == t.NonNilSucc || t.NonNilSucc.Dominates(ret.Block()) {
-						hasRet = true
+				// from the error edge: straight to a return of a non-nil error - no further command, no next loop iteration
+				fl := an.FlowFromFacts(t.NonNilSucc, nil, ev)
+				good := true
+				for _, a := range avoid {
+					if fl.Reaches(a) {
+						good = false
 					}
 				}
-				good = good && hasRet
-				// every return reachable from the error edge returns a non-nil error
-				for _, ret := range an.Returns(fn) {
-					if ret.Block() == t.NonNilSucc || (t.NonNilSucc.Dominates(ret.Block())) {
-						last := an.RetVal(ret, len(ret.Results)-1)
-						if an.IsNilConst(last) {
-							good = false
-						}
+				if h, _ := an.EnclosingLoop(call.Block()); h != nil && fl.Reached[h] {
+					good = false
+				}
+				rets := fl.ReachedReturns()
+				if len(rets) == 0 {
+					good = false
+				}
+				for _, ret := range rets {
+					if len(ret.Results) == 0 || fl.Nilness(an.RetVal(ret, len(ret.Results)-1)) != 1 {
+						good = false
 					}
 				}
 				if good {
@@ -382,16 +445,20 @@ func r13e(c *an.Ctx) {
 	}
 	c.Subject()
 	var store *ssa.MapUpdate
+	var stores []*ssa.MapUpdate
 	an.Instrs(fn, func(in ssa.Instruction) {
 		if mu, ok := in.(*ssa.MapUpdate); ok && strings.HasSuffix(mu.Map.Type().String(), "channel.BindMap") && an.InLoop(mu.Block()) {
 			store = mu
+			stores = append(stores, mu)
 		}
 	})
 	if store == nil {
 		c.Lost("bind map store in configureTasks")
 		return
 	}
-	hdr := headerInstrs(store.Block())
+	// innermost loop around the store: one iteration = one inbound channel of one task
+	h, _ := an.EnclosingLoop(store.Block())
+	endOfIteration := func(b *ssa.BasicBlock, i int) bool { return h != nil && b.Succs[i] == h && h.Dominates(b) }
 	ok, seen := true, false
 	an.Instrs(fn, func(in ssa.Instruction) {
 		lk, isLk := in.(*ssa.Lookup)
@@ -409,20 +476,37 @@ func r13e(c *an.Ctx) {
 					continue
 				}
 				seen = true
-				exists := b.Succs[trueIdx]
-				// from "alias already defined": the store must be unreachable within this iteration
-				if exists == store.Block() || an.CanReachAvoiding(exists.Instrs[0], store, hdr) {
-					ok = false
+				// from "alias already defined": no store into the bind map is reachable within this iteration
+				fl := an.FlowFrom(b.Succs[trueIdx], endOfIteration)
+				for _, st := range stores {
+					if fl.Reaches(st) {
+						ok = false
+					}
 				}
-				// and the different-endpoint branch returns a non-nil error
+				// and the different-endpoint branch ends in a non-nil error being returned
 				errRet := false
 				for _, ci := range an.CallsNamed(fn, "core/task/channel.EndpointEquals") {
 					call := ci.(*ssa.Call)
 					for _, bb := range fn.Blocks {
-						if an.KnownFalse(bb, call) {
-							if ret, isRet := bb.Instrs[len(bb.Instrs)-1].(*ssa.Return); isRet && an.NonNil(an.RetVal(ret, 0)) {
-								errRet = true
+						cv, ti, isCond := an.BoolCondEdge(bb)
+						if !isCond || cv != ssa.Value(call) {
+							continue
+						}
+						f2 := an.FlowFrom(bb.Succs[1-ti], nil)
+						rets := f2.ReachedReturns()
+						good := len(rets) > 0
+						for _, ret := range rets {
+							if len(ret.Results) == 0 || f2.Nilness(an.RetVal(ret, len(ret.Results)-1)) != 1 {
+								good = false
 							}
+						}
+						for _, st := range stores {
+							if f2.Reaches(st) {
+								good = false
+							}
+						}
+						if good {
+							errRet = true
 						}
 					}
 				}
